@@ -836,8 +836,10 @@ class Machine(object):
         return {
             "rule": ("one evaluation = one schedule: 2-8 (16 thorough) simulated threads each running 1-3 seeded operations on their own objects "
                      "(hash/XOF/MAC with copy(), AEAD and classic ciphers, EC point arithmetic, key construction/generation/import, ECDSA, "
-                     "EdDSA incl. prehash with a caller-owned hash/XOF, ECDH, RSA sign/decrypt, modexp, KDFs, Shamir, gc.collect), nearly half "
-                     "of the runs racing on the first use of one curve, interleaved by a seeded scheduler with per-run pre-emption "
+                     "EdDSA incl. prehash with a caller-owned hash/XOF, ECDH, RSA sign/decrypt, modexp on both back-ends, KDFs, Shamir, strxor, two live "
+                     "hash objects / two live AES objects under one key used in turn, copy() after 2^32 bits, gc.collect), nearly half "
+                     "of the runs racing on the first use of one curve, some on the first use of one operation kind or on one shared private "
+                     "key and shared point objects (read-only), interleaved by a seeded scheduler with per-run pre-emption "
                      "densities; afterwards every program is run alone; non-trivial = at least 2 threads; distinct = SHA-256 of the canonical case"),
             "state_measure": "distinct (threads, context-switch bucket, lock contention seen, C-level switch seen) tuples; distinct schedule-trace digests are part of the event log",
             "components": {"real": ["real OS threads", "all of lib/Crypto", "all C extensions compiled with -finstrument-functions", "ctypes (GIL released in native calls)"],
